@@ -181,42 +181,9 @@ func (sc *Scenario) run(pattern []bool, checkFix bool) *Exec {
 	for i := 0; i < sc.NumResumes; i++ {
 		restart := i < len(pattern) && pattern[i]
 		if restart || checkFix {
-			// serialise and re-read over freshly loaded assets
-			sa2, aerr := sc.LoadAssets()
-			if aerr != nil {
-				ex.Harness = "assets: " + aerr.Error()
+			s2, sa2, ok := sc.reread(ex, eng, s, i+1)
+			if !ok {
 				return ex
-			}
-			m1, merr := json.Marshal(s)
-			if merr != nil {
-				ex.ReadErrs = append(ex.ReadErrs, fmt.Sprintf("call %d: marshal: %s", i+1, merr))
-				return ex
-			}
-			var s2 flows.Session
-			var rerr error
-			var missing []string
-			rp, rh := guarded(func() {
-				s2, rerr = eng.ReadSession(sa2, m1, func(ref assets.Reference, e error) { missing = append(missing, ref.String()) })
-			})
-			switch {
-			case rh:
-				ex.ReadErrs = append(ex.ReadErrs, fmt.Sprintf("call %d: ReadSession hangs", i+1))
-				return ex
-			case rp != nil:
-				ex.ReadErrs = append(ex.ReadErrs, fmt.Sprintf("call %d: ReadSession panics: %v", i+1, rp))
-				return ex
-			case rerr != nil:
-				ex.ReadErrs = append(ex.ReadErrs, fmt.Sprintf("call %d: ReadSession: %s", i+1, rerr))
-				return ex
-			}
-			m2, merr := json.Marshal(s2)
-			if merr != nil {
-				ex.ReadErrs = append(ex.ReadErrs, fmt.Sprintf("call %d: marshal of re-read session: %s", i+1, merr))
-				return ex
-			}
-			if !bytes.Equal(m1, m2) {
-				ex.Refix = append(ex.Refix, jsonDiff(string(m1), string(m2)))
-				ex.RefixAt = append(ex.RefixAt, i+1)
 			}
 			if restart {
 				s, sa = s2, sa2
@@ -237,7 +204,52 @@ func (sc *Scenario) run(pattern []bool, checkFix bool) *Exec {
 			return ex
 		}
 	}
+	if checkFix {
+		// clause 1 also for the final session (waiting or ended)
+		sc.reread(ex, eng, s, sc.NumResumes+1)
+	}
 	return ex
+}
+
+// reread serialises s and reads it back over freshly loaded assets; records clause-1 differences and read errors
+// in ex (at = index of the call that would come next).  ok=false: the execution cannot go on.
+func (sc *Scenario) reread(ex *Exec, eng flows.Engine, s flows.Session, at int) (flows.Session, flows.SessionAssets, bool) {
+	sa2, aerr := sc.LoadAssets()
+	if aerr != nil {
+		ex.Harness = "assets: " + aerr.Error()
+		return nil, nil, false
+	}
+	m1, merr := json.Marshal(s)
+	if merr != nil {
+		ex.ReadErrs = append(ex.ReadErrs, fmt.Sprintf("call %d: marshal: %s", at, merr))
+		return nil, nil, false
+	}
+	var s2 flows.Session
+	var rerr error
+	rp, rh := guarded(func() {
+		s2, rerr = eng.ReadSession(sa2, m1, func(ref assets.Reference, e error) {})
+	})
+	switch {
+	case rh:
+		ex.ReadErrs = append(ex.ReadErrs, fmt.Sprintf("call %d: ReadSession hangs", at))
+		return nil, nil, false
+	case rp != nil:
+		ex.ReadErrs = append(ex.ReadErrs, fmt.Sprintf("call %d: ReadSession panics: %v", at, rp))
+		return nil, nil, false
+	case rerr != nil:
+		ex.ReadErrs = append(ex.ReadErrs, fmt.Sprintf("call %d: ReadSession: %s", at, rerr))
+		return nil, nil, false
+	}
+	m2, merr := json.Marshal(s2)
+	if merr != nil {
+		ex.ReadErrs = append(ex.ReadErrs, fmt.Sprintf("call %d: marshal of re-read session: %s", at, merr))
+		return nil, nil, false
+	}
+	if !bytes.Equal(m1, m2) {
+		ex.Refix = append(ex.Refix, jsonDiff(string(m1), string(m2)))
+		ex.RefixAt = append(ex.RefixAt, at)
+	}
+	return s2, sa2, true
 }
 
 // ---- comparison ------------------------------------------------------------------------------------------
